@@ -29,6 +29,12 @@ Definition mkrow (v : N) (s : bool) (e : N) : row := (N.to_nat v, s, N.to_nat e)
 Definition chg (n v : N) (s : bool) (e : N) : nat * row := (N.to_nat n, mkrow v s e).
 Definition dP (v : N) : decl := DParam (Z.of_N v).
 Definition dS (fs : list (string * bool)) (salt : N) : decl := DStruct fs (hproc (Z.of_N salt)).
+(* a processor that may FAIL: Process() returns (hmod + hash, err) when the hash is divisible by 3 — a value no
+   successful run produces.  nodes.Struct stores that value next to the error (sn.value, sn.err = Process()) and
+   Value() serves it; the error itself is never read back by Value/State/Version/Outdated *)
+Definition hprocF (salt : Z) : procfn := fun ins =>
+  let h := hproc salt ins in if (h mod 3 =? 0)%Z then (hmod + h)%Z else h.
+Definition dSF (fs : list (string * bool)) (salt : N) : decl := DStruct fs (hprocF (Z.of_N salt)).
 
 Definition row_eqb (a b : row) : bool :=
   let '(v, s, e) := a in let '(v', s', e') := b in (v =? v') && Bool.eqb s s' && (e =? e').
@@ -113,7 +119,9 @@ Fixpoint rows_step (g : list (list (string * port) * procfn + val)) (o : op) (ac
   : bool :=
   match t, t', touched with
   | [], [], [] => true
-  | (v, _, e) :: tr, (v', _, e') :: tr', tc :: tcr =>
+  | (v, _, e) :: tr, (v', s', e') :: tr', tc :: tcr =>
+      (* the node just read reports State() = Processed (neither Stale nor Error) *)
+      (match o with Read r => if accepted && (r =? n) then negb s' else true | _ => true end) &&
       (if is_param g n then
          (* update counter: +1 exactly when this parameter was set, never executes *)
          (e' =? 0) && (e =? 0) &&
